@@ -961,3 +961,7 @@ def load_case(c):
 
 def search(rng, budget):
     yield from _generate(rng, "thorough")
+
+
+def extra_coverage():
+    return {"default_read_csv_differences_with_a_reader_side_cause (observations, not failures)": dict(c17_csv.READER_SIDE_STATS)}
